@@ -236,7 +236,28 @@ def param_flow(fn, cfg, rd):
   return deps
 
 
-def check_attr_provenance(res, cls, init, key, rule='S4', conditional=False):
+def attr_param_deps(init):
+  """{attribute: set of constructor parameters it is computed from}"""
+  cfg = CFG(init.node)
+  rd = ReachingDefs(cfg, init.all_params)
+  deps = param_flow(init, cfg, rd)
+  attr_deps = {}
+  assigns = self_attr_assigns(init)
+  for _ in range(3):
+    for attr, val, st in assigns:
+      if val is None:
+        continue
+      s = attr_deps.setdefault(attr, set())
+      for r in names_read(val):
+        if r.startswith('self.'):
+          s |= attr_deps.get(r[5:], set())
+        else:
+          s |= deps.get(r, set())
+  return attr_deps
+
+
+def check_attr_provenance(res, cls, init, key, rule='S4', conditional=False,
+                          attr_name=None):
   """self.<key> is assigned in __init__ on all paths from parameter <key>
   (wrapping / canonicalising allowed; a branch guarded by a test on the
   parameter may assign a derived default)."""
@@ -256,7 +277,7 @@ def check_attr_provenance(res, cls, init, key, rule='S4', conditional=False):
           s |= attr_deps.get(r[5:], set())
         else:
           s |= deps.get(r, set())
-  mine = [(a, v, st) for a, v, st in assigns if a == key]
+  mine = [(a, v, st) for a, v, st in assigns if a == (attr_name or key)]
   k = '%s|%s' % (cls.qualname, key)
   if not mine:
     # maybe assigned through setattr-free base class; look at in-repo bases
@@ -419,3 +440,51 @@ def attr_mutations(fn, attrs):
       if d and d.startswith('self.') and d[5:] in attrs:
         out.append((d[5:], n, '.%s()' % n.func.attr))
   return out
+
+
+# ---------------------------------------------------------------------------
+def check_config_not_mutated(prog, res, rule='S12'):
+  """S12: from_config / deserialize helpers receive the caller's config dict
+  (Keras passes the same dict it keeps in the model config) and must not
+  mutate it: `config.pop(..)`, `config[k] = ..`, `del config[k]`,
+  `config.update(..)` are only allowed after `config` was re-bound to a copy
+  (decided with reaching definitions)."""
+  import ast as _ast
+  from ..cfg import CFG, ReachingDefs, enclosing_stmt
+  n = 0
+  for fn in prog.all_functions():
+    if fn.cls is None or 'config' not in fn.all_params:
+      continue
+    if not (fn.name == 'from_config' or fn.name.startswith('deserialize')):
+      continue
+    res.analysed(fn)
+    cfg = CFG(fn.node)
+    rd = ReachingDefs(cfg, params=fn.all_params)
+    muts = []
+    for x in _ast.walk(fn.node):
+      site = None
+      if isinstance(x, _ast.Call) and isinstance(x.func, _ast.Attribute) and \
+          dotted(x.func.value) == 'config' and x.func.attr in (
+              'pop', 'update', 'clear', 'setdefault', 'popitem'):
+        site = x
+      elif isinstance(x, _ast.Subscript) and dotted(x.value) == 'config' and \
+          isinstance(x.ctx, (_ast.Store, _ast.Del)):
+        site = x
+      if site is None:
+        continue
+      st = enclosing_stmt(fn.node, site)
+      nid = cfg.node_of(st) if st is not None else None
+      if nid is None:
+        continue
+      defs = rd.defs_reaching(nid, 'config')
+      if cfg.entry.id in defs:
+        muts.append(site)
+    n += 1
+    key = '%s|config-untouched' % fn.qualname
+    res.check(not muts, rule, key, fn.loc(muts[0] if muts else None),
+              'the caller\'s config dict is not mutated',
+              '`%s` mutates the config dict passed by the caller (no copy is '
+              'made first): a second from_config on the same dict, or '
+              'comparing configs afterwards, fails (KeyError / missing key)'
+              % (norm_text(muts[0])[:50] if muts else ''))
+  return n
